@@ -237,6 +237,20 @@ func checkRemoveLimitOrder(c *core.Ctx, rl *ssa.Function) {
 		c.Unk("C14.refund", key+"/closed-object", upd[0].Pos(), "the order handed to updateOrders was not recognised")
 		return
 	}
+	// the object that is refunded and closed is the LIVE order whenever the order was touched in
+	// this block: one of its origins is pair.getOrder(id), reached under isDirtyOrder(id)
+	live := false
+	for _, o := range core.Origins(closed) {
+		if call, ok := o.(*ssa.Call); ok && methodNameOfCall(call) == "getOrder" {
+			for _, f := range c.FactsAt(call, 0) {
+				if cf, ok := f.AsCall(); ok && cf.MethodName() == "isDirtyOrder" && f.Truth {
+					live = true
+				}
+			}
+		}
+	}
+	c.Check(live, "C14.refund", key+"/live-order-when-dirty", upd[0].Pos(), "for an order touched in this block the refunded/closed object is pair.getOrder(id), the live order",
+		"the order that is refunded and closed is never replaced by the live order of the pair (pair.getOrder) when the order was touched in this block: the refund is computed from the copy stored at the last commit, so amounts filled earlier in the block are refunded too")
 	// returns: classify (coin, volume)
 	nz := 0
 	for _, r := range core.Returns(rl) {
